@@ -188,7 +188,7 @@ func DecodeWTF8Rune(s string) (rune, int) {
 	}
 
 	if n < sz {
-		return utf8.RuneError, 0
+		return utf8.RuneError, 1
 	}
 
 	s1 := s[1]
